@@ -50,10 +50,21 @@ func (ex *Exec) envFor(fr *Frame, st *State) *Env {
 		// captured variables of a function literal: the name denotes the current content of the captured variable
 		for _, fv := range fr.fn.FreeVars {
 			if r, ok := fr.regs[fv]; ok && r.P != nil && r.P.Cell != nil && len(r.P.Path) == 0 {
-				if c, live := st.cells[r.P.Cell]; live {
-					if _, shadow := env.vars[fv.Name()]; !shadow {
-						env.vars[fv.Name()] = TV{c, ex.u.SortOf(r.P.Cell.typ)}
+				if _, shadow := env.vars[fv.Name()]; shadow {
+					continue
+				}
+				if _, isPtr := r.P.Cell.typ.Underlying().(*types.Pointer); isPtr {
+					// a captured pointer variable: the name denotes the object it points to
+					if inner, ok := ex.loadOpaque(r.P); ok && inner.P != nil && inner.P.Cell != nil && len(inner.P.Path) == 0 {
+						if c, live := st.cells[inner.P.Cell]; live {
+							env.vars[fv.Name()] = TV{c, ex.u.SortOf(inner.P.Cell.typ)}
+							env.vars[fv.Name()+"$isnil"] = TV{inner.P.NilT, "Bool"}
+						}
 					}
+					continue
+				}
+				if c, live := st.cells[r.P.Cell]; live {
+					env.vars[fv.Name()] = TV{c, ex.u.SortOf(r.P.Cell.typ)}
 				}
 			}
 		}
